@@ -196,6 +196,43 @@ example : let cfg : Cfg := { depthLimit := some 2, callLimit := some 1, recLimit
   · simp [evalDecls, sumFn, Func.decls, callFrame, selfCell, sumFrame, sumClos, Func.name]
   · core_run
 
+/-- **Every iteration count.** The accumulator-style function
+`fn f(n, acc) { if(n == 0, acc, f(n - 1, acc + n)) }`, called as `f(n, acc)` from height `h`, for
+*every* `n`: under any depth limit that admits the one frame (`h + 1 < depth limit`) and any call
+limit that admits the one call, the optimised run returns `acc + (0 + 1 + … + n)`, leaves the state
+as it was but for that one counted call, provided `n ≤` recursion limit (or none is set) — and it is
+the recursion violation exactly when `n` exceeds the recursion limit. The loop is bounded by the
+recursion limit only. -/
+theorem tail_loop_bounded_by_recursion_limit_only (cfg : Cfg) (htco : cfg.tco = true) (h : Nat)
+    (hd : depthOk cfg h) (n : Nat) (acc : Int) (st : St) (k : Nat)
+    (hc : ∀ l, cfg.callLimit = some l → st.calls + 1 < l) :
+    let st1 : St := if cfg.callLimit.isSome then { st with calls := st.calls + 1 } else st
+    (recOk cfg n →
+      callUser (k + 16 + n) cfg h sumClos [.int n, .int acc] st = (.val (.int (acc + tri n)), st1)) ∧
+    (∀ l, cfg.recLimit = some l → n > l →
+      callUser (k + 16 + n) cfg h sumClos [.int n, .int acc] st = (.viol .recursion, st1)) ∧
+    2 * tri n = n * (n + 1) :=
+  ⟨(sum_call cfg htco h hd n acc st k hc).1, (sum_call cfg htco h hd n acc st k hc).2, two_tri n⟩
+
+/-- 10⁵ iterations under depth limit 2, call limit 2 and recursion limit 10⁵ succeed; one more
+iteration is the recursion violation; the reference run (tco off) of three iterations already
+exceeds depth limit 3. -/
+example :
+    let cfg : Cfg := { depthLimit := some 2, callLimit := some 2, recLimit := some 100000 }
+    callUser (16 + 100000) cfg 0 sumClos [.int (100000 : Nat), .int 0] {} = (.val (.int (0 + tri 100000)), { calls := 1 }) ∧
+    callUser (16 + 100001) cfg 0 sumClos [.int (100001 : Nat), .int 0] {} = (.viol .recursion, { calls := 1 }) ∧
+    (callUser 40 { depthLimit := some 3, tco := false } 0 sumClos [.int 3, .int 0] {}).1 = .viol .depth := by
+  intro cfg
+  have hd : depthOk cfg 0 := by intro l hl; cases hl; decide
+  have hc : ∀ l, cfg.callLimit = some l → ({} : St).calls + 1 < l := by intro l hl; cases hl; decide
+  refine ⟨?_, ?_, ?_⟩
+  · have := (tail_loop_bounded_by_recursion_limit_only cfg rfl 0 hd 100000 0 {} 0 hc).1
+      (by intro l hl; cases hl; decide)
+    simpa [cfg] using this
+  · have := (tail_loop_bounded_by_recursion_limit_only cfg rfl 0 hd 100001 0 {} 0 hc).2.1 100000 rfl (by decide)
+    simpa [cfg] using this
+  · core_run
+
 /-- The call counter is touched once per user call, before the trampoline starts — never by the
 loop: with a call limit, `callUser` adds one to `calls`, compares, and enters the loop with
 recursion counter 0. -/
